@@ -25,6 +25,11 @@ pub enum Probe {
     Belief { user: u8, pool: u16, offer: u8, ask: u8, amt: Amt, belief_ppm: u32, extra_tols: Vec<u64> },
     /// two-asset deposit: exact pool proportion (off_ppm = 0) or off by off_ppm, tolerances descending
     Deposit { user: u8, pool: u16, mult_ppm: u32, off_ppm: i32, extra_tols: Vec<u64> },
+    /// one-asset deposit into a constant-product pool: the deposit the pool manager makes for the
+    /// caller after swapping half (half : proceeds against the post-swap reserves) is subject to the
+    /// caller's liquidity_max_slippage like any other deposit, whatever the swap tolerance is
+    #[serde(alias = "SingleDeposit")]
+    SingleDep { user: u8, pool: u16, asset: u8, amt: Amt, extra_tols: Vec<u64> },
     /// route through constant-product pools with max_slippage from a tolerance list (every hop is
     /// subject to the same protection, default and cap as a direct swap)
     RouteTol { user: u8, first_pool: u16, first_offer: u8, hops: Vec<(u16, u8)>, amt: Amt, extra_tols: Vec<u64> },
@@ -60,6 +65,8 @@ fn probe_strat() -> impl Strategy<Value = Probe> {
             .prop_map(|(user, first_pool, first_offer, hops, amt)| Probe::RouteMin { user, first_pool, first_offer, hops, amt }),
         3 => (0u8..4, any::<u16>(), 0u8..4, proptest::collection::vec((any::<u16>(), 0u8..3), 0..3), amt_strat(), tols())
             .prop_map(|(user, first_pool, first_offer, hops, amt, extra_tols)| Probe::RouteTol { user, first_pool, first_offer, hops, amt, extra_tols }),
+        2 => (0u8..4, any::<u16>(), 0u8..2, amt_strat(), tols())
+            .prop_map(|(user, pool, asset, amt, extra_tols)| Probe::SingleDep { user, pool, asset, amt, extra_tols }),
     ]
 }
 
@@ -172,7 +179,8 @@ fn attempt<F: FnOnce(&mut Sim) -> Result<cw_multi_test::AppResponse, String>>(si
 }
 
 fn protection_reason(e: &str) -> bool {
-    e.contains("Slippage") || e.contains("slippage") || e.contains("inimum receive") || e.contains("Belief") || e.contains("Denominator must not be zero")
+    let e = e.to_lowercase();
+    e.contains("slippage") || e.contains("spread") || e.contains("minimum receive") || e.contains("belief") || e.contains("denominator must not be zero")
 }
 
 impl Protections {
@@ -398,7 +406,7 @@ impl Protections {
             );
             let (pid, f2, s2) = (p.id.clone(), funds.clone(), sender.clone());
             let a = attempt(sim, &what, |s| s.w.provide(&s2, &pid, &f2, setting, None, None, None, None))?;
-            let slippage_err = a.err.contains("lippage");
+            let slippage_err = a.err.to_lowercase().contains("slippage");
             if !a.ok && !slippage_err {
                 st.bump("deposit attempts refused for other reasons");
                 return Ok(());
@@ -474,6 +482,119 @@ impl Protections {
                 rejected_at = Some(rejected_at.map(|r| r.max(tv)).unwrap_or(tv));
             }
             st.bump("deposit attempts rejected by the protection (state verified unchanged)");
+        }
+        Ok(())
+    }
+
+
+    /// one-asset deposits into constant-product pools, liquidity_max_slippage walked over a list while
+    /// the swap tolerance stays at its maximum: the pool manager swaps half and deposits (half :
+    /// proceeds) against the post-swap reserves; that deposit must pass the documented ratio test
+    /// with the caller's DEPOSIT tolerance
+    #[allow(clippy::too_many_arguments)]
+    fn run_single_dep(&self, sim: &mut Sim, user: u8, pool: u16, asset: u8, amt: &Amt, extra: &[u64], ascending: bool, st: &mut Stats) -> Result<(), String> {
+        let obs = sim.obs();
+        let cps: Vec<&PoolView> = obs.pools.values().filter(|p| p.all_reserves_positive() && matches!(p.kind, Kind::Cp)).collect();
+        if cps.is_empty() {
+            return Ok(());
+        }
+        let p = cps[pick(pool, cps.len())].clone();
+        let oi = asset as usize % 2;
+        let ai = 1 - oi;
+        let sender = sim.user(user);
+        let amount = amt.resolve(p.reserves[oi]).min(sim.w.balance(&sender, &p.denoms[oi]));
+        let half = amount / 2;
+        if half == 0 {
+            return Ok(());
+        }
+        // the internal swap must pass its own protection at the 50% cap, else the attempt says
+        // nothing about the deposit tolerance
+        if cp_swap_decision(&p, oi, ai, half, DEC18 / 2).0 != Decision::MustAccept {
+            st.bump("one-asset deposit: internal swap not surely within 50%");
+            return Ok(());
+        }
+        let q = match sim.w.simulate(&p.id, coin(half, &p.denoms[oi]), &p.denoms[ai]) {
+            Ok(q) => q,
+            Err(_) => return Ok(()),
+        };
+        let r = q.return_amount.u128();
+        let leaves = r + q.protocol_fee_amount.u128() + q.burn_fee_amount.u128();
+        if r == 0 || leaves >= p.reserves[ai] {
+            return Ok(());
+        }
+        // post-swap reserves and the deposit made for the caller
+        let mut pairs = vec![(p.denoms[oi].clone(), half, p.reserves[oi] + half), (p.denoms[ai].clone(), r, p.reserves[ai] - leaves)];
+        pairs.sort_by(|a, b| a.0.cmp(&b.0));
+        let (da, db, pa, pb) = (big(pairs[0].1), big(pairs[1].1), big(pairs[0].2), big(pairs[1].2));
+        let mut list: Vec<Option<u128>> = vec![None, Some(DEC18), Some(DEC18 / 2), Some(DEC18 / 10), Some(DEC18 / 100), Some(DEC18 / 1000), Some(0)];
+        for e in extra {
+            list.push(Some((*e as u128 * 1_000_000_000).min(DEC18)));
+        }
+        list.sort_by(|a, b| match (a, b) {
+            (None, None) => std::cmp::Ordering::Equal,
+            (None, _) => std::cmp::Ordering::Greater,
+            (_, None) => std::cmp::Ordering::Less,
+            (Some(x), Some(y)) => if ascending { x.cmp(y) } else { y.cmp(x) },
+        });
+        for t in list {
+            let setting = t.map(|a| Decimal::new(Uint128::new(a)));
+            let what = format!(
+                "one-asset deposit of {amount} {} into cp {} (reserves {:?}, fees {:?}/{:?}/{:?}/{:?}e-18; the pool manager swaps {half} for {r} and deposits {half}:{r} against {:?}) with liquidity_max_slippage {:?} and swap_max_slippage 0.5",
+                p.denoms[oi],
+                p.id,
+                p.reserves,
+                p.protocol_fee,
+                p.swap_fee,
+                p.burn_fee,
+                p.extra_fees,
+                (p.reserves[oi] + half, p.reserves[ai] - leaves),
+                setting.map(|d| d.to_string())
+            );
+            let (pid, s2, f2) = (p.id.clone(), sender.clone(), vec![coin(amount, &p.denoms[oi])]);
+            let a = attempt(sim, &what, |s| s.w.provide(&s2, &pid, &f2, setting, Some(Decimal::percent(50)), None, None, None))?;
+            if !a.ok && !a.err.to_lowercase().contains("slippage") {
+                st.bump("one-asset deposit attempts refused for other reasons");
+                return Ok(());
+            }
+            match t {
+                None => {
+                    if !a.ok {
+                        return Err(format!("[C13] {what}: rejected for slippage although no deposit tolerance was given and the internal swap is within the swap tolerance ({})", a.err));
+                    }
+                }
+                Some(tv) => {
+                    let omt = big(DEC18 - tv);
+                    let c1 = &da * &omt * &pb <= &pa * &db * big(DEC18);
+                    let c2 = &db * &omt * &pa <= &pb * &da * big(DEC18);
+                    let near_abs = |an: &BigUint, ad: &BigUint, cn: &BigUint, cd: &BigUint| -> bool {
+                        let l = an * &omt * cd;
+                        let r = cn * ad * big(DEC18);
+                        let diff = if l > r { &l - &r } else { &r - &l };
+                        diff <= big(2) * ad * cd
+                    };
+                    if near_abs(&da, &db, &pa, &pb) || near_abs(&db, &da, &pb, &pa) {
+                        st.bump("one-asset deposit attempts inside the indifference band");
+                    } else {
+                        if (c1 && c2) != a.ok {
+                            return Err(format!(
+                                "[C13] {what}: accepted={} but the deposit made for the caller is{} within the deposit tolerance of the pool ratio ({})",
+                                a.ok,
+                                if c1 && c2 { "" } else { " not" },
+                                a.err
+                            ));
+                        }
+                        st.bump("one-asset deposit attempts decided");
+                        if !a.ok {
+                            st.bump("one-asset deposit attempts rejected by the deposit tolerance");
+                        }
+                    }
+                }
+            }
+            if a.ok {
+                st.bump("one-asset deposit sequences ending in an acceptance");
+                st.mark();
+                return Ok(());
+            }
         }
         Ok(())
     }
@@ -653,7 +774,7 @@ impl Protections {
                     &[coin(amount, d2)],
                 )
             })?;
-            if !a.ok && !a.err.contains("inimum receive") {
+            if !a.ok && !a.err.to_lowercase().contains("minimum receive") {
                 st.bump("route attempts refused for other reasons");
                 return Ok(());
             }
@@ -708,6 +829,7 @@ impl Engine for Protections {
                 Probe::SwapTol { user, pool, offer, ask, amt, extra_tols } => self.run_swap(&mut sim, *user, *pool, *offer, *ask, amt, None, extra_tols, asc, st)?,
                 Probe::Belief { user, pool, offer, ask, amt, belief_ppm, extra_tols } => self.run_swap(&mut sim, *user, *pool, *offer, *ask, amt, Some(*belief_ppm), extra_tols, asc, st)?,
                 Probe::Deposit { user, pool, mult_ppm, off_ppm, extra_tols } => self.run_deposit(&mut sim, *user, *pool, *mult_ppm, *off_ppm, extra_tols, asc, st)?,
+                Probe::SingleDep { user, pool, asset, amt, extra_tols } => self.run_single_dep(&mut sim, *user, *pool, *asset, amt, extra_tols, asc, st)?,
                 Probe::RouteMin { user, first_pool, first_offer, hops, amt } => self.run_route(&mut sim, *user, *first_pool, *first_offer, hops, amt, st)?,
                 Probe::RouteTol { user, first_pool, first_offer, hops, amt, extra_tols } => self.run_route_tol(&mut sim, *user, *first_pool, *first_offer, hops, amt, extra_tols, asc, st)?,
             }
@@ -722,7 +844,7 @@ pub fn check(tier: Tier, seed: u64) -> PropReport {
         tier,
         seed,
         "exploration",
-        "cases = world configuration x 1-3 funded pools of both types x 0-7 generated prefix operations x 1-3 probes. A probe sends one message repeatedly with an ASCENDING (boundary-focused) or DESCENDING (monotonicity-focused) list of tolerances (a rejection must leave the complete snapshot unchanged, so the same state is probed again; the first acceptance ends the list): swaps with max_slippage in {none, 0, the state's own slippage ratio -1e-18/+0/+1e-18 (read from Simulation), generated values, 0.5, 0.5+1e-18, 1, 1.5}; swaps with a belief price at 0.8-1.3x the quoted price; routes of 1-3 constant-product hops with the same max_slippage lists (every hop decided exactly); two-asset deposits in exact pool proportion (k x reserves/gcd) or off by a chosen ratio with liquidity_max_slippage in {none, 1, 1+1e-18, 0.5, 0.01, 0, generated}; routes of 1-5 hops with minimum_receive = quote +1, +0, -1. oracles: constant-product swap accepted iff (E - net)/E <= min(tol or 1%, 50%) with E = floor(offer x reserve ratio) in exact rationals (indifference band for the contract's 18-digit price rounding); belief price: accepted iff net >= floor(offer/belief) x (1 - tol); route executed iff quote >= minimum, and delivers >= minimum; constant-product deposit accepted iff both ratio tests of the documented predicate hold (decided when the exact ratios differ by more than 2e-18, the contract's resolution), tolerance > 1 refused, no tolerance never rejects; every pool type: acceptance is monotone in the effective tolerance along the descending lists, an exact-proportion deposit is accepted under every valid tolerance; stableswap swaps: an acceptance implies the loss against the exact pre-trade marginal price (from the exact invariant) is within the tolerance. non-trivial = sequence ending in an acceptance after the checks above; distinct by the generated case",
+        "cases = world configuration x 1-3 funded pools of both types x 0-7 generated prefix operations x 1-3 probes. A probe sends one message repeatedly with an ASCENDING (boundary-focused) or DESCENDING (monotonicity-focused) list of tolerances (a rejection must leave the complete snapshot unchanged, so the same state is probed again; the first acceptance ends the list): swaps with max_slippage in {none, 0, the state's own slippage ratio -1e-18/+0/+1e-18 (read from Simulation), generated values, 0.5, 0.5+1e-18, 1, 1.5}; swaps with a belief price at 0.8-1.3x the quoted price; routes of 1-3 constant-product hops with the same max_slippage lists (every hop decided exactly); two-asset deposits in exact pool proportion (k x reserves/gcd) or off by a chosen ratio with liquidity_max_slippage in {none, 1, 1+1e-18, 0.5, 0.01, 0, generated}; one-asset deposits into constant-product pools with swap_max_slippage 0.5 and liquidity_max_slippage in {none, 1, 0.5, 0.1, 0.01, 0.001, 0, generated}, where the deposit made for the caller (half : proceeds of the internal swap, against the post-swap reserves from Simulation) must pass the same ratio test with the DEPOSIT tolerance; routes of 1-5 hops with minimum_receive = quote +1, +0, -1. oracles: constant-product swap accepted iff (E - net)/E <= min(tol or 1%, 50%) with E = floor(offer x reserve ratio) in exact rationals (indifference band for the contract's 18-digit price rounding); belief price: accepted iff net >= floor(offer/belief) x (1 - tol); route executed iff quote >= minimum, and delivers >= minimum; constant-product deposit accepted iff both ratio tests of the documented predicate hold (decided when the exact ratios differ by more than 2e-18, the contract's resolution), tolerance > 1 refused, no tolerance never rejects; every pool type: acceptance is monotone in the effective tolerance along the descending lists, an exact-proportion deposit is accepted under every valid tolerance; stableswap swaps: an acceptance implies the loss against the exact pre-trade marginal price (from the exact invariant) is within the tolerance. non-trivial = sequence ending in an acceptance after the checks above; distinct by the generated case",
     );
     rep.assumptions = vec!["contracts run natively inside cw-multi-test; a rejected message leaving the snapshot unchanged is verified on every attempt, which is what makes re-probing the same state sound".into()];
     let cases = match tier {
@@ -738,6 +860,8 @@ pub fn check(tier: Tier, seed: u64) -> PropReport {
     rep.floor("belief-price attempts decided", cases / 10);
     rep.floor("cp deposit attempts decided", cases / 10);
     rep.floor("cp route attempts decided", cases / 10);
+    rep.floor("one-asset deposit attempts decided", cases / 20);
+    rep.floor("one-asset deposit attempts rejected by the deposit tolerance", cases / 50);
     rep.floor("exact-proportion deposits accepted", cases / 50);
     rep.floor("routes accepted at minimum_receive == quote", cases / 20);
     rep.floor("multi-hop routes at the minimum_receive boundary", cases / 100);
